@@ -60,9 +60,11 @@ IsShort(k) == k \in {"short", "shortall", "drop"}
 ShortOf(k, r) == IF k = "shortall" THEN ShortAllResp(r) ELSE IF k = "drop" THEN Nothing ELSE ShortResp(r)
 RewriteResp(x) == IF x.k = "resp" /\ x.body = "result" THEN [x EXCEPT !.v = "mw_rewritten"] ELSE x
 
-\* error handlers: cfg.eh = [gen |-> Seq(kind), by |-> [code -> Seq(kind)]], kind \in {"identity", "replace"}
+\* error handlers: cfg.eh = [gen |-> Seq(kind), by |-> [code -> Seq(kind)]], kind \in {"identity", "replace", "mutate"}
 ReplacedErr == [code |-> "c_2001", message |-> "s_b", data |-> Absent]
-ApplyEh(kind_, e) == IF kind_ = "replace" THEN ReplacedErr ELSE e
+\* "mutate": the handler edits the error object it was given in place (code, message) and returns that same object
+ApplyEh(kind_, e) == IF kind_ = "replace" THEN ReplacedErr
+                     ELSE IF kind_ = "mutate" THEN [e EXCEPT !.code = "c_2001", !.message = "s_b"] ELSE e
 EhQueue(code) ==
     [i \in 1..Len(cfg.eh.gen) |-> [key |-> "None", idx |-> i, kind |-> cfg.eh.gen[i]]]
     \o (IF code \in DOMAIN cfg.eh.by
